@@ -27,6 +27,12 @@ func minRTO(e sim.EPConfig) int {
 // drawCleanCfg draws a configuration satisfying C18's preconditions.
 func drawCleanCfg(t *rapid.T) (sim.CoreCfg, *sim.FateScript) {
 	cfg := sim.DrawCoreCfg(t)
+	// the 32-bit millisecond clock: anywhere, and in particular so that the
+	// transfer runs across its 2^31 / 2^32 wrap points (a process that has been
+	// up for 24.8 / 49.7 days): a clean path is clean there too
+	if rapid.Bool().Draw(t, "clock") {
+		cfg.ClockOff = drawOffset(t, "clk", rapid.SampledFrom([]int{50, 500, 5000, 60_000}).Draw(t, "clkSpan"))
+	}
 	// window precondition: rcv_wnd >= min(peer's snd_wnd, 32)
 	for i := 0; i < 2; i++ {
 		need := min(cfg.EP[1-i].SndWnd, 32)
@@ -118,6 +124,9 @@ func TestC18CleanPath(t *testing.T) {
 				cl = append(cl, "drive_update_check")
 				break
 			}
+		}
+		if crosses(cfg.ClockOff, st.EndMs) {
+			cl = append(cl, "clock_crosses_a_wrap_point")
 		}
 		rec.Case(hx.Hash64(cfg, fs.BaseDelay, app), filled && st.PushSegs[0]+st.PushSegs[1] >= 3, cl...)
 		if rec.WantSample() {
